@@ -107,6 +107,9 @@ def drive(item):
     for (pn, r) in pts:
         p = pn / den
         rr = tuple(x / den for x in r)
+        # exactly 0 or 1 as integer literals for every other grid point
+        if (pn + r[0] + 2 * r[1]) % 2 == 0:
+            rr = tuple(int(v) if v in (0.0, 1.0) else v for v in rr)
         em = PauliErrorModel(*rr, deformation_name=dn, deformation_kwargs=dict(kw))
         pi, px, py, pz = em.probability_distribution(code, p)
         rec = {'Den': den, 'G': G, 'pn': pn, 'r': list(r), 'n': int(n), 'D': D,
